@@ -276,10 +276,41 @@ def seed(k: int) -> State:
         early = ir.Node("", "Early", [late.outputs[0]], name="early")
         g = ir.Graph([x], [early.outputs[0]], nodes=[early, late, p, q], name="g6")
         return State([g], [p, q, late, early], [x, qo, p.outputs[0], late.outputs[0], early.outputs[0]])
+    if k == 7:
+        # a value that WAS an input and an output of ga, was removed from both, and now belongs to gb (stale bookkeeping
+        # candidates); plus free values and a value listed twice
+        x = ir.Value(name="x")
+        mv = ir.Value(name="mv")
+        p = ir.Node("", "P", [x, mv], name="p")
+        ga = ir.Graph([x, mv], [p.outputs[0], mv], nodes=[p], name="ga")
+        ga.inputs.remove(mv)
+        ga.outputs.remove(mv)
+        y = ir.Value(name="y")
+        q = ir.Node("", "Q", [y], name="q")
+        gb = ir.Graph([y], [q.outputs[0], q.outputs[0]], nodes=[q], name="gb")
+        gb.inputs.append(mv)
+        fresh, fresh2 = ir.Value(name="fresh"), ir.Value(name="fresh2")
+        return State([ga, gb], [p, q], [fresh, mv, x, p.outputs[0], fresh2, y, q.outputs[0]])
+    if k == 8:
+        # root graph acyclic but stored out of order; the then-branch of its If holds a cycle that does not depend on outer values
+        x = ir.Value(name="x")
+        a = ir.Node("", "A", [x], name="a")
+        b = ir.Node("", "B", [a.outputs[0]], name="b")
+        c = ir.Node("", "C", [b.outputs[0]], name="c")
+        qo = ir.Value(name="q_out")
+        pn = ir.Node("", "P", [qo], name="p")
+        qn = ir.Node("", "Q", [pn.outputs[0]], outputs=[qo], name="q")
+        then_g = ir.Graph([], [pn.outputs[0]], nodes=[pn, qn], name="then_cyclic")
+        e2 = ir.Node("", "E2", [x], name="e2")
+        e1 = ir.Node("", "E1", [e2.outputs[0]], name="e1")
+        else_g = ir.Graph([], [e1.outputs[0]], nodes=[e1, e2], name="else_unsorted")
+        iff = ir.Node("", "If", [c.outputs[0]], attributes=[ir.AttrGraph("then_branch", then_g), ir.AttrGraph("else_branch", else_g)], name="if")
+        g = ir.Graph([x], [iff.outputs[0]], nodes=[c, b, a, iff], name="g8")
+        return State([g, then_g, else_g], [a, b, c, iff, pn, qn, e1, e2], [x, a.outputs[0], b.outputs[0], c.outputs[0], qo, pn.outputs[0], iff.outputs[0]])
     raise ValueError(k)
 
 
-N_SEEDS = 7
+N_SEEDS = 9
 NAMES = ["x", "w", "fresh", "", None, "val_0", "z", "oi", "ii", "w_outer", "b_outer", "w_inner", "bias_inner"]
 
 
@@ -296,6 +327,7 @@ OPS = [
     "out.append", "out.extend2", "out.insert", "out.pop", "out.remove", "out.clear", "out.setitem", "out.setslice", "out.delitem", "out.iadd",
     "init.setitem", "init.pop", "init.delitem", "init.clear", "init.register", "init.update", "init.setdefault", "init.popitem", "init.add", "init.ior",
     "v.rename", "Node()", "Node(outputs=)", "conv.replace_all_uses_with", "g.remove_safe_many", "conv.rename_values2", "conv.rename_values3",
+    "in.setslice2", "out.setslice2", "in.extend3", "out.extend3",
 ]
 N_OPS = len(OPS)
 COLLECTION_OPS = [i for i, o in enumerate(OPS) if o.split(".")[0] in ("in", "out", "init")]
@@ -364,6 +396,10 @@ def apply(st: State, op: int, gi: int, a: int, b: int, c: int, d: int = 0):
                 coll[b] = V(a)
             elif m == "setslice":
                 coll[b:c] = [V(a)]
+            elif m == "setslice2":
+                coll[b:c] = [V(a), V(d)]
+            elif m == "extend3":
+                coll.extend([V(a), V(d), V(a)])
             elif m == "delitem":
                 del coll[b]
             elif m == "reverse":
